@@ -740,6 +740,13 @@ func (ev *Evaluator) call(x *ECall, env *Env) Val {
 			return Leaf{T: o.Tag}
 		}
 		ev.fail("tag of untagged value")
+	case "fbits":
+		// the IEEE 754 bit pattern of a floating-point value
+		f, ok := ev.Eval(x.Args[0], env).(FloatV)
+		if !ok {
+			ev.fail("fbits: expected a floating-point value")
+		}
+		return Leaf{T: f.Bits}
 	case "ratnum", "ratden":
 		// numerator / denominator of the *big.Rat a pointer refers to (math/big model)
 		pv := ev.Eval(x.Args[0], env)
